@@ -95,14 +95,14 @@ def split_and_parse(r, f, who, ty):
         subj = tests[0][3]
         r.require(any(x[0] == "call" and x[1] == "core::str::<impl str>::trim" for x in walk(subj)), "%s:unit-trimmed" % who, fn=f, detail="unit operand: %s" % show(subj, 6))
         r.require(all(t[3] == subj for t in tests), "%s:same-unit-operand" % who, fn=f, detail="every comparison tests the same unit string")
-        lowered = any(x[0] == "call" and x[1].rsplit("::", 1)[-1] in ("to_ascii_lowercase", "to_lowercase") for x in walk(subj))
+        lowered = any(x[0] == "call" and x[1].rsplit("::", 1)[-1] == "to_ascii_lowercase" for x in walk(subj))   # to_lowercase() is Unicode-aware: U+212A folds to k
         r.require(all(t[2] == "ci" or (t[2] == "eq" and lowered and t[1] == t[1].lower()) for t in tests), "%s:case-insensitive" % who, fn=f,
                   detail="unit comparisons use eq_ignore_ascii_case, or exact comparison of the lower-cased unit with lower-case keys")
     return tests
 
 
-def run_cfg(ctx, p, cfg):
-    with ctx.rule("L1", "size multiplier table", cfg) as r:
+def rule_size_table(ctx, p, cfg, rid="L1"):
+    with ctx.rule(rid, "size multiplier table", cfg) as r:
         f = p.fn(SIZE_V + "visit_str")
         tests = tables.string_key_tests(f)
         sinks = {}
@@ -140,7 +140,10 @@ def run_cfg(ctx, p, cfg):
         r.floor("unit-keys", len(got), 9)
         ctx.extra["size_table"] = {k: sorted(v, key=str) for k, v in got.items()}
 
-    with ctx.rule("L2", "overflow checked", cfg) as r:
+
+
+def rule_size_overflow(ctx, p, cfg, rid="L2"):
+    with ctx.rule(rid, "overflow checked", cfg) as r:
         f = p.fn(SIZE_V + "visit_str")
         muls = []
         bad = []
@@ -186,6 +189,12 @@ def run_cfg(ctx, p, cfg):
                         r.ok("overflow-rejected", fn=f, site=c.at, detail="None of the checked product becomes the returned Err (ok_or_else)")
                         r.ok("product-returned", fn=f, site=c.at, detail="Some(n) is returned as Ok(n)")
         r.require(found, "overflow-edge-present", fn=f, detail="the None of the checked product is turned into an error")
+
+
+
+def run_cfg(ctx, p, cfg):
+    rule_size_table(ctx, p, cfg, "L1")
+    rule_size_overflow(ctx, p, cfg, "L2")
 
     with ctx.rule("L3", "numbers", cfg) as r:
         f = p.fn(SIZE_V + "visit_str")
